@@ -130,6 +130,7 @@ def encErr : Err → Sexp
   | .type => .list [.atom "err", .atom "type"]
   | .unsupported => .list [.atom "err", .atom "unsupported"]
   | .name => .list [.atom "err", .atom "name"]
+  | .unstable => .list [.atom "err", .atom "unstable"]
 
 def handle (req : Sexp) : Sexp :=
   match req with
